@@ -19,7 +19,8 @@ from pyjelly.serialize.streams import SerializerOptions  # noqa: E402
 ID = "C13"
 LEVEL = "exploration"
 RULE = ("(1) header fidelity: stream class x logical type x presets (8..4096 / 0..4096) x StreamParameters (generalized, "
-        "rdf_star, namespace declarations, Unicode stream names incl. empty, astral, 300 bytes) x delimited: the options seen "
+        "rdf_star, namespace declarations, Unicode stream names incl. empty, astral, 300 bytes) x delimited x entry (stream_frames over a "
+        "stream object, store/sink entries, and - flat/unspecified logical types - flat_stream_to_frames / flat_stream_to_file given the caller's options): the options seen "
         "by get_options_and_frames and by the independent wire codec must equal what was asked (version 2 iff namespace "
         "declarations, else 1). (2) all 4x8 physical/logical pairs at construction (StreamTypes and stream classes) and on "
         "parse (hand-encoded headers): accepted iff the specification table held by the harness allows the pair. (3) name "
@@ -102,6 +103,10 @@ def header_case(ctx, rng):
         stmts_in = []
         cfg["entry"] = "stream_frames_sink" if integ == "generic" else rng.choice(["stream_frames_store", "graph_serialize"])
         ctx.observe("headers-of-streams-without-statements")
+    if stmts_in and not ns and phys != 3 and (logical in FLAT or logical == 0) and rng.random() < .5:
+        # the caller's options handed to the flat convenience entry points instead of a stream object
+        cfg["entry"] = rng.choice(["flat_frames", "flat_to_file"] if delimited else ["flat_frames"])
+    ctx.observe(f"header-entry:{cfg['entry']}")
     try:
         if ns:
             cfg["entry"] = "stream_frames_sink" if integ == "generic" else "stream_frames_store"
